@@ -50,6 +50,8 @@ def render(d, top=True):
         return '%s:"%s"' % (k, d[1])
     if k == "ltime":
         return 'ltime:"2020-01-01 12%02d%02d:"' % (d[1] // 60, d[1] % 60)
+    if k == "cdatac":       # data filter on the output of one converter: ("cdatac", converter, text)
+        return 'cdata.%s:"%s"' % (d[1], d[2])
     if k == "ref":
         typ, name = d[1].split("/")
         return "%s:%s" % (typ, name)
@@ -87,7 +89,7 @@ def klass(d):
         return {"id"}
     if k in ("cport", "sport", "chost"):
         return {"porthost"}
-    if k in ("cdata", "sdata", "data"):
+    if k in ("cdata", "sdata", "data", "cdatac"):
         return {"data"}
     if k == "ltime":
         return {"time"}
@@ -151,6 +153,9 @@ def eval_def(d, sid, streams, tagtruth):
         return d[1] in s["c"] or d[1] in s["s"]
     if k == "ltime":
         return s["lt"] >= d[1] * 1000
+    if k == "cdatac":
+        out = (s.get("conv") or {}).get(d[1])       # what the converter cache holds for the stream (None: not converted)
+        return out is not None and d[2] in out
     if k == "ref":
         return sid in tagtruth(d[1])
     if k == "not":
@@ -385,7 +390,8 @@ def gen_template(rng, name, family=None):
        tagjob-refchg : a referenced tag changes (query edit, mark add/del) while the referrer's job is parked
        convjob-2imp  : two imports complete while a converter job is parked at its start
        view-import   : on-demand conversion through a view opened before / during an import"""
-    family = family or rng.choice(["tagjob-import", "tagjob-refchg", "convjob-2imp", "view-import", "convjob-detach", "view-multi", "view-multi"])
+    family = family or rng.choice(["tagjob-import", "tagjob-refchg", "convjob-2imp", "view-import", "convjob-detach", "view-multi", "view-multi",
+                                   "tagjob-convdone"])
     scn = _tmpl_base(rng, name, rng.choice([3, 4]))
     kinds, x = _file_kinds(rng, scn)
     acts = scn["actions"]
@@ -465,6 +471,24 @@ def gen_template(rng, name, family=None):
             acts += [["stepkind", "import"], ["stepkind", "import"], ["stepkind", "tag"], ["stepkind", "tag"]]
         acts.append(rng.choice([["setconv", T, []], ["deltag", T]]))
         acts += [["stepkind", "convert"], ["stepkind", "convert"], ["stepkind", "convert"]]
+    elif family == "tagjob-convdone":
+        # a converter job completes while the tagging job of a tag that filters on that converter's output is parked
+        # (before or after its evaluation); the tag must not be published decided with pre-conversion matches
+        n = len(scn["flows"]) - 1
+        acts.append(["addtag", "tag/a", add_def(rng.choice([("not", ("cport", [9])), _plain_def(rng, scn, ("port", "host", "id"))]))])
+        acts.append(["settle", rng.randrange(1 << 20)])
+        acts.append(["setconv", "tag/a", ["cva"]])             # converter job created, parked at its start
+        word = rng.choice([p["data"] for p in scn["files"][0]])
+        d = ("cdatac", "cva", word.encode().hex())
+        if rng.random() < 0.3:
+            d = ("or", d, _plain_def(rng, scn, ("port", "id")))
+        acts.append(["addtag", "tag/b", add_def(d)])           # its tagging job parks at tag.start
+        if rng.random() < 0.3:
+            acts.append(["addtag", "tag/c", add_def(("ref", "tag/b"))])
+        order = rng.choice([["tag", "convert", "convert", "tag"], ["tag", "convert", "convert", "tag"], ["convert", "tag", "convert", "tag"],
+                            ["convert", "convert", "tag", "tag"], ["tag", "convert", "tag", "convert"]])
+        for kd in order:
+            acts.append(["stepkind", kd])
     elif family == "view-multi":
         # one view kept open over several searches while tags are undecided: a narrow result with all tags prefetched,
         # then wider searches (with and without prefetch) that use the tags as filters / report HasTag outside the first result
@@ -478,9 +502,24 @@ def gen_template(rng, name, family=None):
             r = ("ref", "tag/a")
             acts.append(["addtag", "tag/c", add_def(rng.choice([r, ("not", r), ("and", r, _plain_def(rng, scn, ("port", "host"))), ("sub", "tag/a", "sport")]))])
             tags.append("tag/c")
+        if rng.random() < 0.7:      # definitions with several disjuncts
+            for T in rng.sample(["tag/b", "tag/d"], rng.choice([1, 2])):
+                d = ("or", _plain_def(rng, scn, ("port", "host", "id")), _plain_def(rng, scn, ("port", "host", "id", "data")))
+                if rng.random() < 0.3:
+                    d = ("or", d, _plain_def(rng, scn, ("port", "id")))
+                acts.append(["addtag", T, add_def(d)])
+                tags.append(T)
         for _ in range(rng.choice([0, 0, 1, 2])):
             acts.append(["stepkind", "tag"])
         acts.append(["viewopen", 0])
+        if len(tags) >= 2:          # several undecided tags in ONE conjunction
+            for _ in range(rng.choice([1, 2, 3])):
+                k = rng.choice([2, 2, 3]) if len(tags) >= 3 else 2
+                rs = [("ref", T) if rng.random() < 0.8 else ("not", ("ref", T)) for T in rng.sample(tags, k)]
+                q = rs[0]
+                for r in rs[1:]:
+                    q = ("and", q, r)
+                acts.append(["viewsearch", 0, add_def(q), rng.choice([0, 0, 1])])
         narrow = rng.choice([("cport", [rng.choice(cports[:n])]), ("id", [rng.randrange(n)])])
         acts.append(["viewsearch", 0, add_def(narrow), 1])
         for _ in range(rng.choice([2, 3, 4])):
@@ -507,7 +546,7 @@ def gen_template(rng, name, family=None):
     return scn
 
 
-FAMILY_OF_FIELD = {"tags": ["tagjob-import", "tagjob-refchg"], "next": ["tagjob-import"], "tc": ["convjob-2imp", "view-import", "convjob-detach"],
+FAMILY_OF_FIELD = {"tags": ["tagjob-import", "tagjob-refchg", "tagjob-convdone"], "next": ["tagjob-import"], "tc": ["convjob-2imp", "view-import", "convjob-detach"],
                    "ca": ["convjob-2imp", "view-import"], "j": ["tagjob-import", "convjob-2imp"], "q": ["tagjob-import"],
                    "ix": ["convjob-2imp"], "me": ["convjob-2imp", "tagjob-import"]}
 
@@ -755,12 +794,28 @@ def check_scenario(scn, lines):
         if set(streams) != set(range(st["next"])):
             F.append(Finding("GT", "ids-not-dense", name, i, sorted(streams)))
             break
+        for sid, o in streams.items():       # converter output as cached now (truth of `cdata.<converter>:` filters)
+            o["conv"] = {c: m.get(str(sid)) for c, m in st["cache"].items()}
         per_line[li] = (streams, done_before, list(truth.done))
         tsets, asts = tag_truth_sets(st, defs, streams)
+        def uses_conv(d, seen=()):
+            """the definition (transitively) filters on the output of a converter"""
+            if d is None:
+                return False
+            if d[0] == "cdatac":
+                return True
+            if d[0] == "not":
+                return uses_conv(d[1], seen)
+            if d[0] in ("and", "or"):
+                return uses_conv(d[1], seen) or uses_conv(d[2], seen)
+            return any(r not in seen and uses_conv(asts.get(r), seen + (r,)) for r in refs(d))
+        # while a converter job is in flight its body may already have stored output that its completion has not yet
+        # announced to the tags (they become uncertain in the completion): tags on converter output are compared at rest
+        conv_pending = {tn for tn in st["tags"] if st["fconv"] and uses_conv(asts.get(tn))}
         # ---- C06: decided => matches == truth
         for tn, t in st["tags"].items():
             tr = tsets[tn]
-            if tr is None:
+            if tr is None or tn in conv_pending:
                 continue
             U, M = set(t["u"]), set(t["m"])
             for sid in streams:
@@ -775,10 +830,10 @@ def check_scenario(scn, lines):
                                       "refs": sorted(refs(asts[tn])) if asts[tn] else []}))
         # ---- C06 (view): HasTag / AllTags of a fresh view with all tags prefetched
         for s in fresh.get("streams", []):
-            want = sorted(tn for tn, tr in tsets.items() if tr is not None and s["id"] in tr)
-            known = [tn for tn in s["has"] if tsets.get(tn) is not None]
+            want = sorted(tn for tn, tr in tsets.items() if tr is not None and tn not in conv_pending and s["id"] in tr)
+            known = [tn for tn in s["has"] if tsets.get(tn) is not None and tn not in conv_pending]
             stats["view_checks"] += 1
-            if known != want or sorted(t for t in s["tags"] if tsets.get(t) is not None) != want:
+            if known != want or sorted(t for t in s["tags"] if tsets.get(t) is not None and t not in conv_pending) != want:
                 F.append(Finding("C06", "view-hastag", name, i, {"stream": s["id"], "has": s["has"], "alltags": s["tags"], "truth": want}))
         # ---- C06 (view kept open): every search through the same view = ground truth, whatever was prefetched before
         if act[0] == "viewsearch" and res == "ok" and view_epoch.get(act[1]) == epoch:
@@ -790,7 +845,7 @@ def check_scenario(scn, lines):
                 if "time" in klass(d):
                     return True
                 return any(r in seen or uses_time(asts.get(r), seen + (r,)) for r in refs(d))
-            if q is not None and not uses_time(q) and all(tsets.get(r) is not None for r in refs(q)):
+            if q is not None and not uses_time(q) and not uses_conv(q) and all(tsets.get(r) is not None for r in refs(q)):
                 stats["view_checks"] += 1
                 want = sorted(sid for sid in streams if eval_def(q, sid, streams, lambda tn: tsets.get(tn) or set()))
                 got = [o["id"] for o in ln["info"]["streams"]]
@@ -798,7 +853,7 @@ def check_scenario(scn, lines):
                     F.append(Finding("C06", "view-search", name, i, {"view": act[1], "query": act[2], "prefetch": act[3], "got": got, "truth": want,
                                                                      "shape": inline_shapes(q, view_state[act[1]], asts)}))
                 if act[3]:
-                    clean = sorted(tn for tn in tsets if tsets[tn] is not None and not uses_time(asts[tn]))
+                    clean = sorted(tn for tn in tsets if tsets[tn] is not None and not uses_time(asts[tn]) and not uses_conv(asts[tn]))
                     for o in ln["info"]["streams"]:
                         wt = [tn for tn in clean if o["id"] in tsets[tn]]
                         if [tn for tn in o["has"] if tn in clean] != wt or sorted(tn for tn in o["tags"] if tn in clean) != wt:
@@ -905,7 +960,7 @@ def features(d):
         return F_PORT, 0, set(), set()
     if k == "chost":
         return F_HOST, 0, set(), set()
-    if k in ("cdata", "sdata", "data"):
+    if k in ("cdata", "sdata", "data", "cdatac"):
         return F_DATA, 0, set(), set()
     if k == "ltime":
         return F_TABS, 0, set(), set()
@@ -1071,6 +1126,9 @@ def model_cases(scn, lines, kfs, per_line):
                 tab = []
                 if tag_snap is not None:
                     sst, sstreams = tag_snap
+                    # index snapshot of the job's creation, converter cache as it is when the body runs
+                    pc = next((lines[lj]["state"]["cache"] for lj in range(li - 1, -1, -1) if lines[lj].get("state")), {})
+                    sstreams = {sid: dict(o, conv={c: m.get(str(sid)) for c, m in pc.items()}) for sid, o in sstreams.items()}
                     asts = {}
                     for tn, t in sst["tags"].items():
                         asts[tn] = parse_mark_def(t["def"]) if (tn.startswith("mark/") or tn.startswith("generated/")) else defs.get(t["def"])
